@@ -33,6 +33,17 @@ Mutations(r) ==
   \cup {[r EXCEPT !.life = x] : x \in Lives}
 NearSet(s) == {m \in UNION {Mutations(r) : r \in AuthSet(s)} : ~Authorised(s, m)}
 
+RE(S) == RandomElement(S)
+SubRand(i, muts) ==
+  [op |-> "Submit", api |-> RE({"authorize", "fetch"}), mut |-> RE(muts), nb |-> RE(GridNB), na |-> RE(GridNA),
+   sknb |-> RE(SkewNB), skna |-> RE(SkewNA), k |-> RE(CertKeys), e |-> RE(EncKeys), n |-> RE(Nonces)]
+GenRand(i, signers) ==
+  [op |-> "GenCerts", k |-> RE(CertKeys), nid |-> RE(NodeIds \cup {NONE}), order |-> RE(Perms(CertKeys)),
+   nsig |-> RE(signers), hasState |-> RE(BOOLEAN), ssig |-> RE(signers \cup {NONE}), skip |-> RE({FALSE, FALSE, FALSE, TRUE})]
+RotRand(i, srcs, nonces) ==
+  [op |-> "Rotate", k |-> RE(CertKeys), nid |-> RE(NodeIds \cup {NONE}), order |-> RE(Perms(CertKeys)),
+   src |-> RE(srcs), which |-> RE({"cur", "cur", "prev"}), k2 |-> RE(CertKeys), e2 |-> RE(EncKeys), n2 |-> RE(nonces)]
+
 OpsOf(cls, s) ==
   CASE cls = "Authorize"  -> AuthorizeOps
     [] cls = "Token"      -> TokenOps
@@ -47,21 +58,17 @@ OpsOf(cls, s) ==
     [] cls = "FetchAny"   -> {Merge(Merge([op |-> "Fetch", k |-> RandomElement(CertKeys), e |-> RandomElement(EncKeys),
                                             n |-> RandomElement(AllNonces), life |-> RandomElement(Lives)],
                                             wc[1]), wc[2]) : wc \in {RandomElement(WrapCombos)}}
-    [] cls = "Submit"     -> {v \in {[op |-> "Submit", api |-> RandomElement({"authorize", "fetch"}), mut |-> RandomElement(Muts),
-                                    nb |-> RandomElement(GridNB), na |-> RandomElement(GridNA),
-                                    sknb |-> RandomElement(SkewNB), skna |-> RandomElement(SkewNA),
-                                    k |-> RandomElement(CertKeys), e |-> RandomElement(EncKeys), n |-> RandomElement(Nonces)]} :
-                                 v \in SubmitOps}
-    [] cls = "SubmitWin"  -> {v \in {[op |-> "Submit", api |-> RandomElement({"authorize", "fetch"}), mut |-> "none",
-                                    nb |-> RandomElement(GridNB), na |-> RandomElement(GridNA),
-                                    sknb |-> RandomElement(SkewNB), skna |-> RandomElement(SkewNA),
-                                    k |-> RandomElement(CertKeys), e |-> RandomElement(EncKeys), n |-> RandomElement(Nonces)]} :
-                                 v \in SubmitOps}
+    [] cls = "Submit"     -> {v \in {SubRand(i, Muts) : i \in 1..6} : v \in SubmitOps}
+    [] cls = "SubmitWin"  -> {v \in {SubRand(i, {"none"}) : i \in 1..6} : v \in SubmitOps}
     [] cls = "CreateRequest" -> {[op |-> "CreateRequest", k |-> "fresh", e |-> "fresh", n |-> "fresh", s |-> NONE]}
-    [] cls = "GenCerts"   -> GenCertOps
-    [] cls = "GenNear"    -> {q \in GenCertOps : ~q.skip /\ q.nsig \in CertKeys /\ s.nodes[q.nsig].present}
-    [] cls = "Rotate"     -> RotateOps
-    [] cls = "RotNear"    -> {q \in RotateOps : q.src \in CertKeys /\ s.nodes[q.src].present /\ q.n2 \in Nonces}
+    [] cls = "GenCerts"   -> {GenRand(i, CertKeys \cup {NONE, "kx"}) : i \in 1..3}
+    [] cls = "GenNear"    -> IF Present(s) = {} THEN {} ELSE
+                               {[GenRand(i, Present(s)) EXCEPT !.skip = FALSE] : i \in 1..3}
+                               \cup {LET q == GenRand(i, Present(s)) IN [q EXCEPT !.skip = FALSE, !.ssig = q.nsig, !.k = q.nsig] : i \in 4..5}
+    [] cls = "Rotate"     -> {RotRand(i, CertKeys \cup {"rand"}, Nonces \cup Tokens) : i \in 1..3}
+    [] cls = "RotNear"    -> IF Present(s) = {} THEN {} ELSE
+                               {RotRand(i, Present(s), Nonces) : i \in 1..3}
+                               \cup {LET q == RotRand(i, Present(s), Nonces) IN [q EXCEPT !.k = q.src, !.which = "cur"] : i \in 4..6}
 
 Good(cls, s) == {o \in OpsOf(cls, s) : Apply(s, o).res # "skip"}
 
@@ -70,8 +77,8 @@ Init == st = InitState([sw |-> CfgSW, nidl |-> CfgNidl]) /\ hist = <<>> /\ done 
 Step ==
   /\ Len(hist) < Depth
   /\ \E c0 \in {RandomElement(Classes)} :
-       LET cls == IF Good(c0, st) # {} THEN c0 ELSE Fallback
-           S == Good(cls, st) IN
+      \E S0 \in {Good(c0, st)} :                                 \* each set is evaluated once (random draws inside)
+       \E S \in {IF S0 # {} THEN S0 ELSE Good(Fallback, st)} :
          /\ \E o \in {RandomElement(S)} :
               LET out == Apply(st, o) IN
                 /\ out.res # "skip"
